@@ -176,6 +176,8 @@ def real_corpus(ctx, want):
             if not r["str_is_join"]:
                 bad.append(f"{tag}: str(x) is not the concatenation of format()")
         else:
+            if not r.get("flat_ok", True):
+                bad.append(f"{tag}: format_flat() is not the header + StackSummary.format() of the summary + leaf and error lines")
             ents = e["entries"]
             if len(ents) != len(r["summary"]):
                 bad.append(f"{tag}: summary has {len(r['summary'])} entries, spec {len(ents)}")
